@@ -112,3 +112,22 @@ package segread
 //@   loop 2:
 //@     invariant [cursor-on-a-record-boundary] idx == 6 + i * treeNodeSize(desiredLevel, numAggValues)
 //@ end
+
+// C18 (a damaged file is reported, never silently skipped): the bulk timestamp
+// loader of the persistent-query path reads the requested blocks as runs of
+// adjacent blocks, one checksummed read per run.  A run whose read fails (CRC
+// mismatch, truncation) must make the call return an error — also when a LATER
+// run is read successfully — because the caller otherwise treats the missing
+// blocks as "no timestamps" and silently returns fewer records.  Ghost
+// tsRunFailed: some run's read failed.
+//@ ghostdecl tsRunFailed int
+//@ func ReadAllTimestampsForBlock
+//@   props C18
+//@   assumecalleerequires
+//@   ghostinit ghost(0, "tsRunFailed") == 0
+//@   site callret readChunkFromFile #1:
+//@     ghostset ghost(0, "tsRunFailed") = ite(result1 != nil, 1, ghost(0, "tsRunFailed"))
+//@   loop 3:
+//@     invariant [a-failed-run-stays-recorded] implies(ghost(0, "tsRunFailed") == 1, retErr != nil)
+//@   ensures [a-failed-run-is-reported] implies(ghost(0, "tsRunFailed") == 1, result1 != nil)
+//@ end
